@@ -250,6 +250,7 @@ func (g *GoChannel) Subscribe(ctx context.Context, topic string) (<-chan *messag
 
 		if ok {
 			for i := range messages {
+				verifhook.Point("gochannel.subscribe.replay_msg", topic, s.uuid)
 				msg := g.persistedMessages[topic][i]
 				logFields := watermill.LogFields{"message_uuid": msg.UUID, "topic": topic}
 
